@@ -460,9 +460,55 @@ pub fn handle(report: &mut Report, ctx: &CaseCtx) {
     report.violation(w);
 }
 
+/// Sub-stream of queries that are NOT valid by construction: 1-2 filters of a valid query re-targeted
+/// (any operator; tag operands swapped for any other tag of the query, including ones defined later or
+/// inside folds). Most are rejected; whatever the real frontend accepts must still satisfy every
+/// IR-level invariant (the harness's AST-derived expectations do not apply to these).
+fn confused_case(report: &mut Report, ctx: &CaseCtx, rng: &mut crate::rng::Rng) {
+    let Some(q2) = crate::checks::c09::confuse(&ctx.g.query, rng) else { return };
+    if q2 == ctx.g.query {
+        return;
+    }
+    let text = q2.render();
+    let compiled = match crate::adapter::compile(&ctx.schema, &text) {
+        crate::adapter::Compiled::Ok(c) => c,
+        _ => {
+            report.count("confused_not_accepted");
+            return;
+        }
+    };
+    report.count("confused_accepted_and_checked");
+    report.count("compiled_queries_checked");
+    let errs = check_indexed(&compiled);
+    if let Some((kind, detail)) = errs.first() {
+        let sig = format!("C11:{kind}");
+        if report.already_reported(&sig) {
+            report.count("violations_duplicate_signature");
+            return;
+        }
+        let case = Case { model: (*ctx.model).clone(), ds: (*ctx.ds).clone(), query: q2, args: Default::default() };
+        let small = shrink(&case, &sig, 400, |c: &Case| {
+            let cx = ctx_from_case(c).ok()?;
+            check_indexed(&cx.compiled).first().map(|(k, _)| format!("C11:{k}"))
+        });
+        let w = witness_from_case("C11", "c11ir", &sig, detail, report.seed, ctx.index, &small);
+        report.violation(w);
+    }
+}
+
 pub fn run(report: &mut Report, seed: u64, cases: u64) {
     let scfg = StreamCfg::new(cases);
-    run_stream(report, seed, &scfg, handle);
+    let mut rng = crate::rng::Rng::new(seed ^ 0xc11c11);
+    run_stream(report, seed, &scfg, |rep, ctx| {
+        handle(rep, ctx);
+        confused_case(rep, ctx, &mut rng);
+    });
+}
+
+/// replay of a witness from the not-valid-by-construction sub-stream: IR-level invariants only
+pub fn replay_ir(case: &Case) -> Result<Option<(String, String)>, String> {
+    let ctx = ctx_from_case(case)?;
+    Ok(check_indexed(&ctx.compiled).first().map(|(k, d)| (format!("C11:{k}"), d.clone())))
 }
 
 pub fn replay(case: &Case) -> Result<Option<(String, String)>, String> {
